@@ -205,7 +205,7 @@ func (g *gen) elabName(name string, e *env) (Val, error) {
 	// A parameter that the body reassigns (`i++`) has a current value at a program point (loop invariant, point
 	// assertion, return) that differs from its entry value: at such points the name means the current value;
 	// `old(name)` means the value at entry.
-	if _, isParam := g.paramEnv[name]; isParam && e.atBlock != nil && e.curParams && !e.inOld {
+	if _, isParam := g.paramEnv[name]; isParam && e.atBlock != nil && e.curParams && !e.inOld && !g.paramInCell(name) {
 		if v, ok := g.lookupLocal(name, e); ok {
 			return v, nil
 		}
@@ -1156,4 +1156,29 @@ func (g *gen) emitAxioms() {
 		}
 		g.ctx.declareOnce("axiom:"+ax.Name, "(assert "+t+") ; axiom "+ax.Name)
 	}
+}
+
+
+// paramInCell: the parameter is address-taken (captured by a closure, `&p`): go/ssa spills it into a cell and every
+// read is a load from that cell. Such a parameter keeps meaning its entry value in contracts (its cell is heap
+// state that loops and calls havoc; the code under contract does not reassign it).
+func (g *gen) paramInCell(name string) bool {
+	if g.fn == nil {
+		return false
+	}
+	if g.cellParams == nil {
+		g.cellParams = map[string]bool{}
+		for _, b := range g.fn.Blocks {
+			for _, in := range b.Instrs {
+				if a, ok := in.(*ssa.Alloc); ok && a.Comment != "" {
+					for _, p := range g.fn.Params {
+						if p.Name() == a.Comment {
+							g.cellParams[a.Comment] = true
+						}
+					}
+				}
+			}
+		}
+	}
+	return g.cellParams[name]
 }
